@@ -36,6 +36,8 @@ type agentProgram struct {
 	Grandchild bool
 	// DieDelayMs: how long the agent dawdles between its trigger and its exit.
 	DieDelayMs int
+	// ExitCode: the status of a voluntary exit (0 = clean exit: Wait yields a nil error).
+	ExitCode int
 }
 
 // agentSafetyLifetime bounds the life of agents and grandchildren if the parent
@@ -67,19 +69,18 @@ func agentChild() {
 	fmt.Printf("ready %d %d\n", os.Getpid(), gpid)
 	delay := time.Duration(prog.DieDelayMs) * time.Millisecond
 	switch prog.Mode {
-	// Distinct exit codes tell (through the error returned by Close) which trigger ended the agent.
 	case "immediate":
 		time.Sleep(delay)
-		os.Exit(10)
+		os.Exit(prog.ExitCode)
 	case "eof":
 		io.Copy(io.Discard, os.Stdin)
 		time.Sleep(delay)
-		os.Exit(11)
+		os.Exit(prog.ExitCode)
 	case "term":
 		go io.Copy(io.Discard, os.Stdin)
 		<-term
 		time.Sleep(delay)
-		os.Exit(12)
+		os.Exit(prog.ExitCode)
 	default:
 		go io.Copy(io.Discard, os.Stdin)
 		select {}
@@ -259,7 +260,7 @@ func runC35(c c35case) (obs c35obs, violation string, err error) {
 		cleanup()
 		select {
 		case <-closed:
-		case <-time.After(30 * time.Second):
+		case <-time.After(5 * time.Second):
 		}
 		return obs, fmt.Sprintf("Close did not return within the %v watchdog (agent %s)", watchdog, obs.After), nil
 	}
@@ -305,7 +306,12 @@ func TestC35(t *testing.T) {
 	}
 
 	modes := []string{"eof", "term", "never", "immediate"}
-	dieDelays := []int{0, 300}
+	// Voluntary exits with a clean status (Wait yields nil) and with a failure status.
+	exitCodes := []int{0, 7}
+	// 1300 ms: the agent is still dawdling when the 1 s stage after its trigger ends, so its exit
+	// (clean or not) arrives inside the NEXT escalation stage (e.g. a slow exit after stdin EOF
+	// lands in the SIGTERM window).
+	dieDelays := []int{0, 300, 1300}
 	termDelays := []int{0, 300}
 	pendingReads := []bool{false}
 	if vr.Thorough() {
@@ -316,21 +322,29 @@ func TestC35(t *testing.T) {
 	}
 	var cases []c35case
 	for _, mode := range modes {
-		for _, g := range []bool{false, true} {
-			for _, dd := range dieDelays {
-				for _, td := range termDelays {
-					for _, er := range []bool{false, true} {
-						for _, pr := range pendingReads {
-							cases = append(cases, c35case{agentProgram{mode, g, dd}, td, er, pr})
+		for _, code := range exitCodes {
+			if mode == "never" && code != exitCodes[0] {
+				continue // never exits voluntarily: the status dimension does not apply
+			}
+			for _, g := range []bool{false, true} {
+				for _, dd := range dieDelays {
+					if mode == "never" && dd != dieDelays[0] {
+						continue // nor does dawdling
+					}
+					for _, td := range termDelays {
+						for _, er := range []bool{false, true} {
+							for _, pr := range pendingReads {
+								cases = append(cases, c35case{agentProgram{mode, g, dd, code}, td, er, pr})
+							}
 						}
 					}
 				}
 			}
 		}
 	}
-	r.Rule(fmt.Sprintf("every fake agent program: termination behaviour %v x grandchild keeping stdout/stderr open {no,yes} x dawdling before exit %v ms, behind a real transport.Stream with termination delay %v ms, "+
+	r.Rule(fmt.Sprintf("every fake agent program: termination behaviour %v x status of its voluntary exit %v x grandchild keeping stdout/stderr open {no,yes} x dawdling before exit %v ms, behind a real transport.Stream with termination delay %v ms, "+
 		"stderr receiver {nil,buffer}, pending Read %v; all combinations, each one real process tree. Non-trivial = the agent was alive and ready when Close was called or exited on its own under a non-zero "+
-		"termination delay (i.e. every executed case); distinct by the combination", modes, dieDelays, termDelays, pendingReads))
+		"termination delay (i.e. every executed case); distinct by the combination", modes, exitCodes, dieDelays, termDelays, pendingReads))
 	r.Assume("real time and real OS scheduling: the behaviour alphabet is enumerated completely, the interleaving of agent and Close is whatever the OS produces",
 		fmt.Sprintf("'always returns' is judged with a %v watchdog; nothing else about latency is asserted", c35Watchdog()),
 		"only the agent process itself is required to be gone (the property and stream.go both exclude its descendants)",
@@ -346,7 +360,7 @@ func TestC35(t *testing.T) {
 	}
 	results := make([]result, len(cases))
 	// The cases mostly sleep; run them concurrently in bounded batches.
-	sem := make(chan struct{}, 64)
+	sem := make(chan struct{}, 96)
 	var wg sync.WaitGroup
 	for i := range cases {
 		wg.Add(1)
@@ -366,12 +380,13 @@ func TestC35(t *testing.T) {
 			t.Fatalf("%v (case %s)", res.err, cases[i].key())
 		}
 		r.Case(cases[i].key(), res.obs.Ready)
-		class := "close-returned agent=" + res.obs.After
+		class := cases[i].Program.Mode + ": close-returned agent=" + res.obs.After
 		if !res.obs.CloseEnded {
-			class = "close-hung agent=" + res.obs.After
-		}
-		if res.obs.CloseErr != "" {
-			class += " ended-by=" + res.obs.CloseErr
+			class = cases[i].Program.Mode + ": close-hung agent=" + res.obs.After
+		} else if res.obs.CloseErr != "" {
+			class += " wait-error=" + res.obs.CloseErr
+		} else {
+			class += " wait-error=nil"
 		}
 		r.Outcome(class)
 		if res.what != "" {
